@@ -80,7 +80,10 @@ def freshTag (idx k j p : Nat) : Nat := (idx + 1) * 100000 + (k + 1) * 100 + j *
 
 def freshOut (s : Script) (oc k j pos : Nat) : Val :=
   if oc == cTE then
-    if (s.fail >>> (k % 8)) % 2 == 1 then ⟨cError, freshTag s.idx k j pos⟩ else ⟨cTE, 0⟩
+    if (s.fail >>> (k % 8)) % 2 == 1 then
+      -- (now and then a nil *Err inside a non-nil interface: tag 9999999 -- as an error it is not nil)
+      (if (s.idx + k) % 5 == 4 then ⟨cError, 9999999⟩ else ⟨cError, freshTag s.idx k j pos⟩)
+    else ⟨cTE, 0⟩
   else if oc == cUnus then ⟨cUnus, 0⟩
   else if oc == cDebug then ⟨cDebug, 0⟩
   else ⟨dynCode oc, freshTag s.idx k j pos⟩
